@@ -5,6 +5,7 @@ import TfPwaV.Gen.BoundF
 /-! Float instance of the `VarsManager` state machine + line protocol (C16).
 
 One line = one whole history:  `C16 hist <fixSame> <fixStd> <polar> <op tokens> ; <op tokens> ; …`
+(`C16 histv <fixSame> <fixStd> <stdFree> <boundHead> <polar> …`: the same with all four `Cfg` flags)
 answer = the canonical dump after every op, joined by `#`.
 Other lines: `C16 bound <fn> <lo> <hi> <x>` and `C16 polar <fn> <args>` evaluate the template functions. -/
 namespace TfPwaV.VarsF
@@ -218,7 +219,12 @@ def runDump (cfg : Cfg) (s : State Float) (ops : List (List String)) : Option (L
 def handle : List String → Option String
   | "hist" :: fs :: fa :: pol :: rest => do
     let fs ← pB fs; let fa ← pB fa; let pol ← pB pol
-    let ds ← runDump ⟨fs, fa⟩ (State.empty 0.0 pol) (splitOps rest)
+    let ds ← runDump ⟨fs, fa, false, false⟩ (State.empty 0.0 pol) (splitOps rest)
+    some ("#".intercalate ds)
+  -- the same with the two C08 repair flags of `Cfg` (`stdFree`, `boundHead`) as observed on the tree
+  | "histv" :: fs :: fa :: sf :: bh :: pol :: rest => do
+    let fs ← pB fs; let fa ← pB fa; let sf ← pB sf; let bh ← pB bh; let pol ← pB pol
+    let ds ← runDump ⟨fs, fa, sf, bh⟩ (State.empty 0.0 pol) (splitOps rest)
     some ("#".intercalate ds)
   | ["bound", fn, lo, hi, x] => do
     let lo ← pOF lo; let hi ← pOF hi; let x ← parseF x
